@@ -80,7 +80,8 @@ def gmm_case(draw):
     K = draw(st.integers(2, 4))
     return {"d": d, "K": K, "n": draw(st.sampled_from([20000, 60000, 120000])), "pvals": draw(st.sampled_from(PVALS[K])),
             "pseed": draw(gens.seeds), "seed": draw(st.integers(0, 10 ** 6)), "cov_kind": draw(st.sampled_from(["full", "diag", "identity", "lowrank"])),
-            "layout_1d": draw(st.sampled_from(["K1", "K11"])), "spread": draw(st.sampled_from([1.0, 0.1, 25.0]))}
+            "layout_1d": draw(st.sampled_from(["K1", "K11"])), "spread": draw(st.sampled_from([1.0, 0.1, 25.0])),
+            "mixed_spread": draw(st.booleans())}
 
 
 def gmm_params(c):
@@ -100,7 +101,10 @@ def gmm_params(c):
             A = rs.randn(d, d)
             S = A @ A.T + 0.1 * np.eye(d)
         covs.append(S * c["spread"])
-    return loc, np.array(covs)
+    covs = np.array(covs)
+    if c.get("mixed_spread"):
+        covs = covs * rs.choice([1e-4, 1.0, 1e4], size=K)[:, None, None]
+    return loc, covs
 
 
 def oracle_gmm(c):
@@ -109,7 +113,7 @@ def oracle_gmm(c):
     scale = covs
     if d == 1 and c["layout_1d"] == "K1":
         scale = covs.reshape(K, 1)
-    label = f"draw_gmm(n={n}, K={K}, d={d}, pvals={c['pvals']}, covariances {c['cov_kind']} x{c['spread']}" + \
+    label = f"draw_gmm(n={n}, K={K}, d={d}, pvals={c['pvals']}, covariances {c['cov_kind']} x{c['spread']}{' x per-component 1e-4..1e4' if c.get('mixed_spread') else ''}" + \
             (f", 1-d layout {c['layout_1d']}" if d == 1 else "") + ")"
     try:
         X, y = D.draw_gmm(n, loc, scale, np.array(c["pvals"]), random_state=c["seed"])
@@ -163,6 +167,9 @@ def oracle_bad_gmm(c):
             Q = np.linalg.qr(rs.randn(d, d))[0] if rs.rand() < 0.6 else np.eye(d)
             M_ = (Q * lam) @ Q.T
             covs[rs.randint(K)] = (M_ + M_.T) / 2
+            if rs.rand() < 0.5:
+                # components of very different spreads: each covariance is judged on its own
+                covs = covs * rs.choice([1e-6, 1e-3, 1.0, 1e3, 1e6], size=K)[:, None, None]
     elif kind == "not_square":
         if d == 1:
             return {"nontrivial": False, "classes": ["skip"]}
